@@ -9,6 +9,8 @@ import (
 	"strconv"
 	"time"
 
+	"google.golang.org/protobuf/types/known/durationpb"
+	"google.golang.org/protobuf/types/known/wrapperspb"
 	corev1 "k8s.io/api/core/v1"
 	discoveryv1 "k8s.io/api/discovery/v1"
 	metav1 "k8s.io/apimachinery/pkg/apis/meta/v1"
@@ -18,6 +20,7 @@ import (
 	networking "istio.io/api/networking/v1alpha3"
 	security "istio.io/api/security/v1beta1"
 	typev1beta1 "istio.io/api/type/v1beta1"
+	"istio.io/istio/pilot/pkg/model"
 	"istio.io/istio/pkg/config/schema/gvk"
 	"istio.io/istio/pkg/ptr"
 	"verifharness/internal/wire"
@@ -310,6 +313,41 @@ func init() {
 			g.addCfg("sidecar", m, &networking.Sidecar{WorkloadSelector: &networking.WorkloadSelector{Labels: sel},
 				Egress: []*networking.IstioEgressListener{{Hosts: hosts}}})
 		}
+	}
+}
+
+func init() {
+	// NOT in the corpus: reproducer of a crash found by the widened generator (review round 3). A DestinationRule with
+	// localityLbSetting.failoverPriority + outlierDetection on a ServiceEntry whose cluster has an inline load assignment.
+	witnessMeshes["failover-priority-inline-cluster"] = func(g *mgen) {
+		g.addCfg("serviceentry", g.meta(gvk.ServiceEntry, "se", "default"), &networking.ServiceEntry{
+			Hosts: []string{"ext1.example.com"}, Ports: []*networking.ServicePort{httpPort()}, Resolution: networking.ServiceEntry_DNS,
+			Endpoints: []*networking.WorkloadEntry{
+				{Address: "e1.example.com", Locality: "r1/z1", Labels: map[string]string{"version": "v1"}},
+				{Address: "e2.example.com", Locality: "r1/z1", Labels: map[string]string{"version": "v2"}},
+				{Address: "e3.example.com", Locality: "r2/z1", Labels: map[string]string{"version": "v1"}}}})
+		g.addCfg("destinationrule", g.meta(gvk.DestinationRule, "dr", "default"), &networking.DestinationRule{Host: "ext1.example.com",
+			TrafficPolicy: &networking.TrafficPolicy{
+				LoadBalancer: &networking.LoadBalancerSettings{LbPolicy: &networking.LoadBalancerSettings_Simple{Simple: networking.LoadBalancerSettings_ROUND_ROBIN},
+					LocalityLbSetting: &networking.LocalityLoadBalancerSetting{FailoverPriority: []string{"topology.kubernetes.io/region", "version", "topology.kubernetes.io/zone"}}},
+				OutlierDetection: &networking.OutlierDetection{Consecutive_5XxErrors: wrapperspb.UInt32(3), Interval: durationpb.New(time.Second), BaseEjectionTime: durationpb.New(time.Minute)}}})
+	}
+}
+
+func init() {
+	// C17-17: a headless service with endpoints in two clusters (two shards): EndpointShards.CopyEndpoints ranged over the
+	// Shards map, and the addresses of the service in the NDS name table (and its per-instance listeners) kept that order.
+	witnessMeshes["headless-two-shards"] = func(g *mgen) {
+		g.node0()
+		ports := []corev1.ServicePort{{Name: "http", Port: 80, TargetPort: intstr.FromInt32(8080), Protocol: corev1.ProtocolTCP}}
+		g.k8sService("b", "default", corev1.ClusterIPNone, ports, 3, 1, "")
+		sh := &shardSpec{host: "b.default.svc.cluster.local", ns: "default"}
+		for p := 0; p < 3; p++ {
+			sh.eps = append(sh.eps, &model.IstioEndpoint{Addresses: []string{fmt.Sprintf("10.30.0.%d", p+1)}, EndpointPort: 8080, ServicePortName: "http",
+				Labels: map[string]string{"app": "b", "version": "v1"}, ServiceAccount: "spiffe://cluster.local/ns/default/sa/default", Namespace: "default",
+				WorkloadName: fmt.Sprintf("b-c2-%d", p), HostName: fmt.Sprintf("b-c2-%d", p), SubDomain: "b", Locality: model.Locality{Label: "r2/z2", ClusterID: "c2"}, TLSMode: "istio"})
+		}
+		g.objs = append(g.objs, obj{shard: sh, desc: "Shard/c2/default/b", feat: "remote-cluster-shard"})
 	}
 }
 
